@@ -339,7 +339,7 @@ func runRefConc(c RefCase, a *run.Acc) {
 		}
 	}
 	_ = lastPath
-	opt := sched.Options{PreemptionBound: c.Bound, EnvBound: 0, MaxExecutions: 300000}
+	opt := sched.Options{PreemptionBound: c.Bound, EnvBound: 0, MaxExecutions: 600000}
 	of := c.Of
 	if of == 0 {
 		of = 1
@@ -363,9 +363,9 @@ func init() {
 	run.Register(&run.Def{
 		ID:          "C20",
 		Level:       "model_checking",
-		Rule:        "(a) sequential explicit-state exploration on a real opened segment: EVERY sequence of AddRef / DecRef / Close events of length <= 9 (quick) / 11 (thorough) that keeps the count in [1,4] until its last event; state key = (reference count read through the verif hook, file mapped according to /proc/self/maps, descriptor open according to /proc/self/fd); the segment has text fields with doc values and stored values, two thesauri and (vectors tag) a vector field, so every cache is in play; in every state with a positive count the complete dump, every thesaurus lookup and (vectors tag) exact vector searches must equal the reference, the mapping and descriptor must be present; after the last event both must be gone and every release call must have returned nil; a premature unmap is a SIGSEGV of the worker and is attributed to the history. (b) closing an in-memory segment (after using its caches) returns nil, leaves a segment built before and one built after undisturbed and, under the vectors tag, leaves no native index alive. (c) stateless model checking under the controlled scheduler: 1 holder (all interleavings), 2 holders (preemption bound 3 quick / 5 thorough) and 3 holders (preemption bound 2 quick / 3 thorough), each handed a reference, doing read; AddRef; DecRef; read; DecRef (a read = a stored-field lookup; each holder's first read also looks a term up in the lazily loaded thesaurus cache, which the final release has to clear), against the owner's read; Close, interleaved at the segment's lock points; every read while holding a reference must give the sequential answer, every release returns nil, and at the end the count is 0 and mapping and descriptor are gone; plus a free-running -race pass of the same bodies.",
+		Rule:        "(a) sequential explicit-state exploration on a real opened segment: EVERY sequence of AddRef / DecRef / Close events of length <= 9 (quick) / 11 (thorough) that keeps the count in [1,4] until its last event; state key = (reference count read through the verif hook, file mapped according to /proc/self/maps, descriptor open according to /proc/self/fd); the segment has text fields with doc values and stored values, two thesauri and (vectors tag) a vector field, so every cache is in play; in every state with a positive count the complete dump, every thesaurus lookup and (vectors tag) exact vector searches must equal the reference, the mapping and descriptor must be present; after the last event both must be gone and every release call must have returned nil; a premature unmap is a SIGSEGV of the worker and is attributed to the history. (b) closing an in-memory segment (after using its caches) returns nil, leaves a segment built before and one built after undisturbed and, under the vectors tag, leaves no native index alive. (c) stateless model checking under the controlled scheduler: 1 holder (all interleavings), 2 holders (preemption bound 3 quick / 4 thorough) and 3 holders (preemption bound 2 quick / 3 thorough), each handed a reference, doing read; AddRef; DecRef; read; DecRef (a read = a stored-field lookup; each holder's first read also looks a term up in the lazily loaded thesaurus cache, which the final release has to clear), against the owner's read; Close, interleaved at the segment's lock points; every read while holding a reference must give the sequential answer, every release returns nil, and at the end the count is 0 and mapping and descriptor are gone; plus a free-running -race pass of the same bodies.",
 		Assumptions: []string{"a holder only takes a new reference while it already holds one (references are handed over by an owner)", "reads of a closed in-memory segment are not part of the property and are not issued"},
-		Bounds:      map[string]string{"quick": "sequences of length <= 9; 1 holder unbounded, 2 holders bound 3, 3 holders bound 2; race pass", "thorough": "sequences of length <= 11; 1 holder unbounded, 2 holders bound 5, 3 holders bound 3; race pass"},
+		Bounds:      map[string]string{"quick": "sequences of length <= 9; 1 holder unbounded, 2 holders bound 3, 3 holders bound 2; race pass", "thorough": "sequences of length <= 11; 1 holder unbounded, 2 holders bound 4, 3 holders bound 3; race pass"},
 		Flavours:    func(string) []string { return []string{"plain", "vec", "inst", "race"} },
 		New:         func() interface{} { return &RefCase{} },
 		Gen: func(tier string, emit func(interface{})) {
@@ -384,13 +384,13 @@ func init() {
 				emit(RefCase{Kind: "conc", Holders: 1, Bound: -1})
 				b2, b3 := 3, 2
 				if tier == "thorough" {
-					b2, b3 = 5, 3
+					b2, b3 = 4, 3
 				}
-				for s := 0; s < 16; s++ {
-					emit(RefCase{Kind: "conc", Holders: 2, Bound: b2, Shard: s, Of: 16})
+				for s := 0; s < 32; s++ {
+					emit(RefCase{Kind: "conc", Holders: 2, Bound: b2, Shard: s, Of: 32})
 				}
-				for s := 0; s < 16; s++ {
-					emit(RefCase{Kind: "conc", Holders: 3, Bound: b3, Shard: s, Of: 16})
+				for s := 0; s < 32; s++ {
+					emit(RefCase{Kind: "conc", Holders: 3, Bound: b3, Shard: s, Of: 32})
 				}
 			default:
 				emit(RefCase{Kind: "conc", Holders: 2})
